@@ -117,6 +117,9 @@ var ledgerSpecs = []ledgerSpec{
 			{"fractional-amounts", ledger.Cfg{Nodes: []string{"G"}, Supply: sp(10, 0), Menu: []ledger.TxSpec{tx("fa", "R", "A", 5, 200_000_000_000_000_000), tx("fb", "A", "B", 5, 700_000_000_000_000_000),
 				tx("fc", "B", "A", 0, 400_000_000_000_000_000), tx("fd", "B", "A", 0, 400_000_000_000_000_001), t7}, Props: only("C02")}, d, 0, 0},
 			{"pay-genesis-wallet", ledger.Cfg{Nodes: []string{"G"}, Supply: sp(10, 0), Menu: []ledger.TxSpec{t1, t11, t3}, Props: only("C02")}, d, 0, 0},
+			// a stale overdrawing side tip whose parents get checkpointed (node 0 holds mx on p1 while node 1's chain grows past it)
+			{"stale-side-tip+truncate", ledger.Cfg{Nodes: []string{"G", "N1"}, Supply: sp(10, 0), Menu: []ledger.TxSpec{t1, t3}, Hidden: []ledger.TxSpec{mx}, MaxProposeNodes: 1, Truncate: true,
+				Prefix: []string{"P:0:p1", "D:1:0", "X:0:mx", "P:1:p2", "P:1:p3", "P:1:p4", "D:0:2", "D:0:3", "D:0:4"}, Props: only("C02")}, d - 1, 0, 0},
 			// a wallet pays itself: the amount is income and spending at once (A holds 6, pays itself 5, then tries to pay 9)
 			{"self-payment", ledger.Cfg{Nodes: []string{"G"}, Supply: sp(10, 0), Menu: []ledger.TxSpec{t1, tx("sp5", "A", "A", 5, 0), tx("sb9", "A", "B", 9, 0), tx("sp20", "B", "B", 20, 0), t7}, Props: only("C02")}, d, 0, 0},
 		}
@@ -305,6 +308,13 @@ func ledgerMain(s ledgerSpec, args []string) int {
 	if s.id == "C06" && *replay != "" && isSchedReplay(*replay) {
 		return sched.ReplayFile("C06", c06Scenarios(), *replay)
 	}
+	if s.id == "C10" && fs.NArg() >= 1 && fs.Arg(0) == "schedworker" {
+		sched.WorkerMain(c10Scenarios())
+		return 0
+	}
+	if s.id == "C10" && *replay != "" && isSchedReplay(*replay) {
+		return sched.ReplayFile("C10", c10Scenarios(), *replay)
+	}
 	if s.id == "C07" && fs.NArg() >= 1 && fs.Arg(0) == "schedworker" {
 		sched.WorkerMain(c07Scenarios())
 		return 0
@@ -414,6 +424,13 @@ func ledgerMain(s ledgerSpec, args []string) int {
 		ex, div := c06SchedRun(rep, *procs)
 		if !ex {
 			rep.Set("exhaustive", false)
+		}
+		total.Diverged += div
+	}
+	if s.id == "C10" && (*run == "" || *run == "sched") {
+		ex, div := schedPart(rep, "C10", c10Scenarios(), *procs, 0)
+		if !ex {
+			rep.Set("sched_note", "SCHED part capped; SPACE part exhaustive within its bound")
 		}
 		total.Diverged += div
 	}
